@@ -1253,6 +1253,7 @@ fn sub_errors(_tier: Tier) -> Sub {
 // ---------------------------------------------------------------------------
 
 fn c11(tier: Tier) -> CheckDef {
+    let th = Tier::Thorough; // sub-spaces whose thorough bound costs < 3 s run it in both tiers
     let mut required: Vec<String> = vec!["ok".into(), "attribute-set-twice-and-deleted".into()];
     for v in ALL_VARIANTS.iter().chain(["FileIndex"].iter()) {
         required.push(format!("variant:{}", v));
@@ -1319,7 +1320,7 @@ fn c11(tier: Tier) -> CheckDef {
             "ids are only used with the table that issued them; strings contain no NUL; entries are added in tree order per parent (ids may be reserved earlier)".into(),
             "address sizes 4 and 8; at most 3 units; entry counts as stated per sub-space".into(),
         ],
-        subs: vec![sub_variants(tier), sub_line_mix(tier), sub_many_abbrevs(tier), sub_forest1(tier, false), sub_forest1(tier, true), sub_forest2(tier), sub_forest3(tier), sub_basetypes(tier), sub_shared(tier), sub_dwarf_unit(tier), sub_incremental(tier), sub_errors(tier)],
+        subs: vec![sub_variants(th), sub_line_mix(tier), sub_many_abbrevs(tier), sub_forest1(tier, false), sub_forest1(th, true), sub_forest2(tier), sub_forest3(th), sub_basetypes(th), sub_shared(tier), sub_dwarf_unit(th), sub_incremental(th), sub_errors(tier)],
         required_outcomes: required,
     }
 }
